@@ -16,8 +16,8 @@ import (
 	"github.com/tendermint/tendermint/p2p/conn"
 	tmcons "github.com/tendermint/tendermint/proto/tendermint/consensus"
 	tmbits "github.com/tendermint/tendermint/proto/tendermint/libs/bits"
-	tmproto "github.com/tendermint/tendermint/proto/tendermint/types"
 	ssproto "github.com/tendermint/tendermint/proto/tendermint/statesync"
+	tmproto "github.com/tendermint/tendermint/proto/tendermint/types"
 	"github.com/tendermint/tendermint/statesync"
 
 	"verif/lib"
@@ -228,4 +228,38 @@ func TestWireChild(t *testing.T) {
 		recv.Stop() //nolint
 	}
 	fmt.Println("CHILD-OK")
+}
+
+// TestRegressPrecommitBeforeFirstHeight — replay of finding C17-precommit-before-first-height.
+//
+// A node at the chain's first height waits in RoundStepNewHeight (until genesis time / the commit timeout) with
+// cs.LastCommit == nil. State.addVote treats any precommit with Height+1 == cs.Height as "a precommit for the previous
+// height" and calls cs.LastCommit.AddVote(vote): (*VoteSet)(nil).AddVote panics, the receive routine recovers into
+// "CONSENSUS FAILURE" and consensus of that node stays halted. One unauthenticated Vote message (height
+// InitialHeight-1, which is 0 on an ordinary chain and passes Vote.ValidateBasic) from any peer.
+func TestRegressPrecommitBeforeFirstHeight(t *testing.T) {
+	for _, initial := range []int64{1, 7} {
+		ft := tfail{t}
+		e := newConsEnv(ft, 4, 0, -1, initial)
+		p := newPeer(false)
+		e.addPeer(p)
+		if st := e.cs.GetRoundState(); st.Height != initial || st.Step.String() != "RoundStepNewHeight" {
+			t.Fatalf("harness: node not at (first height, NewHeight): %d %v", st.Height, st.Step)
+		}
+		v := &tmproto.Vote{Type: tmproto.PrecommitType, Height: initial - 1, Round: 0, Timestamp: time.Unix(1_700_000_000, 0).UTC(),
+			ValidatorAddress: fill(1, 20), ValidatorIndex: 0, Signature: fill(2, 64)}
+		msg := wrapCons(&tmcons.Vote{Vote: v})
+		o := deliver(ft, e.sw, e.conR, consensus.VoteChannel, p, msg, "Vote")
+		alive := e.barrier()
+		if !alive {
+			abandonAfter(e.close)
+			if lib.IsKnown(findFirstHeightPrecommit) {
+				lib.ObservedKnown(findFirstHeightPrecommit)
+				continue
+			}
+			t.Fatalf("CONSENSUS FAILURE: a %d-byte precommit for height %d (= InitialHeight-1, garbage signature) from a peer, received while the node waits in NewHeight of its first height %d, killed the consensus receive routine (peer dropped=%v)",
+				len(msg), initial-1, initial, o.dropped)
+		}
+		e.close()
+	}
 }
